@@ -652,7 +652,7 @@ B("B59", "C17-R", [(PN, 'new_name = re.sub("[^a-zA-Z0-9_]", "_", name)', 'new_na
   "replacement class keeps '-' which the acceptance pattern rejects")
 B("B110", "C17-P", [(PN, '        return f"b1_{variable}"', '        return f"B1_{variable}"'), (PN, '    if place.startswith("b1_"):', '    if place.startswith("B1_"):')],
   "place prefix starts with an upper-case letter (a clingo variable)")
-V("V59", "replacement and acceptance class both without '_' is consistent... (kept: same classes)", edits=[(PN, 'if not re.match("^[a-zA-Z0-9_]+$", name):', 'if not re.match("^[A-Za-z0-9_]+$", name):')])
+V("V59", "replacement and acceptance class both without '_' is consistent... (kept: same classes)", edits=[(PN, 'if not re.fullmatch("[a-zA-Z0-9_]+", name):', 'if not re.fullmatch("[A-Za-z0-9_]+", name):')])
 
 # the former seed C17-1 is behaviour-preserving on the current tree (see seeded/C17-1/meta.json): must stay silent ...
 VARIANTS.append({"id": "V-C17-1", "kind": "benign", "patch": "/verif/seeded/C17-1/patch.diff",
